@@ -344,6 +344,8 @@ pub struct QueryCfg {
     /// reuse an existing variable in half of the filters (instead of 1 in 6): the frontend then
     /// has to intersect the types every use implies
     pub bias_var_reuse: bool,
+    /// C04: more filters per property (candidate intersection / exclusion / range normalisation)
+    pub bias_many_filters: bool,
 }
 
 impl QueryCfg {
@@ -378,6 +380,7 @@ impl QueryCfg {
             bias_tags: false,
             bias_optional: false,
             bias_var_reuse: false,
+            bias_many_filters: false,
         }
     }
     pub fn simplest() -> QueryCfg {
@@ -399,6 +402,7 @@ impl QueryCfg {
             bias_tags: false,
             bias_optional: false,
             bias_var_reuse: false,
+            bias_many_filters: false,
         }
     }
 }
@@ -588,7 +592,11 @@ impl<'a> Gen<'a> {
         }
         let mut filters = vec![];
         if self.cfg.f_filters {
-            let nf = [0, 0, 0, 1, 1, 2][self.t.draw(6) as usize];
+            let nf = if self.cfg.bias_many_filters {
+                [0, 1, 1, 2, 3, 4][self.t.draw(6) as usize]
+            } else {
+                [0, 0, 0, 1, 1, 2][self.t.draw(6) as usize]
+            };
             for _ in 0..nf {
                 if let Some(f) = self.gen_filter(&ty, vid, path, false) {
                     filters.push(f);
